@@ -33,7 +33,8 @@ MANIFEST = {
             "accumulator / verdict / mask transfer functions, single loop exit), the order of the two-pass modes; "
             "and D6, per enumerated shape and for all key/nonce/data values: decrypt(encrypt(m)) = m with success "
             "for one-shot / incremental / masked / in-place decryption and for receiver sessions that reuse one "
-            "state across packets, an independent tag is rejected with -1 and the plaintext buffer is wiped; that "
+            "state across packets, an independent tag is rejected with -1 and the plaintext buffer is wiped; D7 "
+            "(all lengths) the masked AEAD handles its state with primitives of one share count between conversions; that "
             "every modified input is rejected is a property of the cipher's strength and is not decided",
     "note": "trusted: clang lowering, irdump, LLVM scalar evolution; `*mlen` re-loads are identified with the "
             "value stored to *mlen (no other store to it exists in the function - checked)",
